@@ -246,17 +246,17 @@ def prune(keep=3):
             shutil.rmtree(os.path.join(CACHE, d), ignore_errors=True)
 
 
-def fuzz_job(name, target, cc="clang++"):
+def fuzz_job(name, target, cc="clang++", defs=()):
     """libFuzzer + ASan binary of fuzz/<name>.cpp for one target (includes xsimd: keyed by the tree)"""
     a = arch(target)
     src = os.path.join(VERIF, "fuzz", name + ".cpp")
-    flags = ["-std=c++17", "-O1", "-g", "-w", "-fsanitize=fuzzer,address", "-D" + HOOK_GUARD, "-DXSV_ARCH=" + a["tag"], "-I" + os.path.join(REPO, "include")] + a["flags"]
+    flags = ["-std=c++17", "-O1", "-g", "-w", "-fsanitize=fuzzer,address", "-D" + HOOK_GUARD, "-DXSV_ARCH=" + a["tag"], "-I" + os.path.join(REPO, "include")] + a["flags"] + list(defs)
     key = _key([tree_hash(), _hash_files([src]), " ".join(flags), compiler_id(cc), "fuzz"])
     out = os.path.join(CACHE, tree_hash(), "%s_%s_%s" % (name, target, key))
     return out, [cc] + flags + [src, "-o", "@OUT@"], out + ".log"
 
 
-def build_fuzzers(name, targets):
-    jobs = {t: fuzz_job(name, t) for t in targets}
+def build_fuzzers(name, targets, defs=()):
+    jobs = {t: fuzz_job(name, t, defs=defs) for t in targets}
     build_many(list(jobs.values()), "fuzzers[%s]" % name)
     return {t: j[0] for t, j in jobs.items()}
